@@ -35,6 +35,16 @@ func c08Scenarios() []c07Scenario {
 			{K: "client", C: 1}, {K: "open", C: 1, Mode: "subscribe-or-create"}, x(1),
 			op(1), op(1), x(1), x(0), op(0), x(0), x(1),
 		}})
+		if kind != sim.Document {
+			// pushes of different sizes right after each other: what a push that collides with operations left
+			// behind by an interrupted one stores (all of it or nothing) shows only when it is the longer one
+			n = 0
+			out = append(out, c07Scenario{Name: fmt.Sprintf("%s/bursts", kind), Kind: kind, Steps: []c07Step{
+				{K: "client", C: 0}, {K: "open", C: 0, Mode: "create"}, op(0), x(0),
+				{K: "client", C: 1}, {K: "open", C: 1, Mode: "subscribe"}, x(1),
+				op(0), x(0), op(1), op(1), op(1), x(1), op(0), op(0), op(0), x(0), op(1), x(1), x(0), x(1),
+			}})
+		}
 	}
 	return out
 }
